@@ -77,6 +77,13 @@ pub fn run_explorer_ext(
     let mut rep = Report::new(prop, tier, level);
     let mut per_cfg = Vec::new();
     let mut seen_sigs = std::collections::BTreeSet::new();
+    // cheapest configurations first: what they leave of their share goes to the expensive ones
+    let mut specs = specs;
+    specs.sort_by(|a, b| {
+        let ca = (a.alphabet.len() as f64).powi(a.depth as i32);
+        let cb = (b.alphabet.len() as f64).powi(b.depth as i32);
+        ca.partial_cmp(&cb).unwrap_or(std::cmp::Ordering::Equal)
+    });
     let nspecs = specs.len();
     for (si, spec) in specs.iter().enumerate() {
         // split the remaining wall budget fairly among the remaining configurations
